@@ -426,7 +426,7 @@ func genRequest(r *hx.Rand) *base.Request {
 		max = 254
 	}
 	req.Header = genHeader(r, max)
-	if len(req.Body) == 0 && r.Intn(20) == 0 {
+	if len(req.Body) == 0 && r.Intn(20) == 0 && countLines(req.Header) < 255 {
 		req.Header["Content-Length"] = base.HeaderValue{"0"}
 	}
 	return req
@@ -668,8 +668,8 @@ func checkPartition(ctx *hx.Ctx, idx int, sc *seqCase, chunks [][]byte, pname st
 
 func caseChunksShort(chunks [][]byte) string {
 	s := caseChunks(chunks)
-	if len(s) > 30000 {
-		return s[:30000] + " ...(truncated)"
+	if len(s) > 600000 {
+		return s[:600000] + " ...(truncated)"
 	}
 	return s
 }
@@ -883,7 +883,7 @@ func plensFor(r *hx.Rand, total int) []int {
 func b64Domain(ctx *hx.Ctx) {
 	r := ctx.Rng
 	// (a) exhaustive 2-way and 3-way splits of short streams of padded blocks
-	nStreams := ctx.Budget(60, 600)
+	nStreams := ctx.Budget(60, 300)
 	for s := 0; s < nStreams; s++ {
 		nw := r.Range(1, 4)
 		var writes [][]byte
@@ -919,7 +919,7 @@ func b64Domain(ctx *hx.Ctx) {
 		try(split(text, func(int) int { return 1 }))
 	}
 	// (b) larger streams, random chunkings, including chunks above the reader's 1024-byte read size
-	for s := 0; s < ctx.Budget(40, 2000); s++ {
+	for s := 0; s < ctx.Budget(40, 600); s++ {
 		nw := r.Range(1, 12)
 		var writes [][]byte
 		var plain []byte
@@ -1114,7 +1114,7 @@ func limitsDomain(ctx *hx.Ctx) {
 
 func malformedDomain(ctx *hx.Ctx) {
 	r := ctx.Rng
-	n := ctx.Budget(500, 30000)
+	n := ctx.Budget(500, 12000)
 	for i := 0; i < n; i++ {
 		var msgs []any
 		k := r.Range(1, 3)
@@ -1248,7 +1248,7 @@ func trimHeader(h base.Header) {
 // wrong message
 func prefixDomain(ctx *hx.Ctx) {
 	r := ctx.Rng
-	for i := 0; i < ctx.Budget(12, 300); i++ {
+	for i := 0; i < ctx.Budget(12, 120); i++ {
 		var msgs []any
 		for j := 0; j < r.Range(1, 3); j++ {
 			m := genMsg(r)
@@ -1299,7 +1299,7 @@ func keyDomain(ctx *hx.Ctx) {
 		"\xe2\x84\xaaeymgmt", "\xe2\x84\xaaEYMGMT", "rtp-\xc4\xb0nfo", "www-authent\xc4\xb0cate", "c\xc5\xbfeq", "content-length",
 		"x-foo", "X-FOO", "x_foo-bar", "a b", "a-b c", "a--b", "-a", "a-", "9a-9b", "\xffcseq", "cseq\xff", "k\xc3\xa9y",
 		"\xe2\x84", "\xc4", "\xe2\x84\xaa", "\xc4\xb0", "sess\xc4\xb0on", "~a-~b", "a.b-c.d", "foo@bar", "(x)", "a\tb"}
-	n := ctx.Budget(300, 20000)
+	n := ctx.Budget(300, 10000)
 	for i := 0; i < n+len(fixed); i++ {
 		var k []byte
 		if i < len(fixed) {
@@ -1382,7 +1382,7 @@ func marshalDomain(ctx *hx.Ctx) {
 			}
 		}
 	}
-	for i := 0; i < ctx.Budget(300, 10000); i++ {
+	for i := 0; i < ctx.Budget(300, 3000); i++ {
 		m := genMsg(r)
 		// push it outside wf in assorted ways
 		switch x := m.(type) {
@@ -1524,7 +1524,7 @@ func main() {
 	keyDomain(ctx)
 	limitsDomain(ctx)
 	// structured, well-formed sequences
-	n := ctx.Budget(220, 12000)
+	n := ctx.Budget(220, 2000)
 	for i := 0; i < n; i++ {
 		k := hx.Pick(r, 1, 1, 2, 3, 4, 6)
 		var msgs []any
